@@ -1,0 +1,36 @@
+//go:build verif && !windows
+
+package desync
+
+import "context"
+
+// VerifSparseMountFile exposes the read path of a sparse mount's file node
+// (sparseIndexFile.Open / Read) without a FUSE mount. Compiled only with
+// -tags verif; adds no behaviour to the package.
+type VerifSparseMountFile struct {
+	n *sparseIndexFile
+	h *SparseFileHandle
+}
+
+// VerifNewSparseMountFile builds the node the way SparseMountFS.OnAdd does and
+// opens a handle on it.
+func VerifNewSparseMountFile(sf *SparseFile) (*VerifSparseMountFile, error) {
+	h, err := sf.Open()
+	if err != nil {
+		return nil, err
+	}
+	return &VerifSparseMountFile{n: &sparseIndexFile{sf: sf, size: sf.Length()}, h: h}, nil
+}
+
+// Read performs one FUSE read request; ok=false stands for an errno other than OK.
+func (v *VerifSparseMountFile) Read(dest []byte, off int64) (data []byte, ok bool) {
+	res, errno := v.n.Read(context.Background(), v.h, dest, off)
+	if errno != 0 {
+		return nil, false
+	}
+	b, _ := res.Bytes(make([]byte, len(dest)))
+	return b, true
+}
+
+// Close closes the handle.
+func (v *VerifSparseMountFile) Close() error { return v.h.Close() }
